@@ -200,6 +200,21 @@ CHECKS = {
          "Faults before effect + stale listings only; Dask synchronous and uuid4 a deterministic counter (determinism asserted "
          "on every run); differences visible only in the returned lazy frame are not violations.",
          "DESIGN.md section 3/C19"),
+ "C18": ("model_checking", "E3",
+         "stateless deviation-bounded schedule exploration of real threads / Dask tasks (iterative context bounding), plus a free-running grid as complement",
+         "E3a: a controlled Dask scheduler (compute(scheduler=callable) / dask.config) decides which ready task starts (W in "
+         "{1,2,3} workers, LIFO ready stack as in dask) and which running task advances to its next filesystem call; all "
+         "schedules within the deviation bound for cx, sjoin, bounds/area/length/intersects_bounds, pack_partitions, "
+         "pack_partitions_to_parquet (both temp modes, with an empty output partition) and read_parquet_dask must give the "
+         "default schedule's result / dataset. E3b: 2-3 client threads on one fresh shared array / frame / Dask frame, "
+         "pre-empted at every line of the lazily built caches (bound 2) and at every line of the whole library (bound 1) via "
+         "sys.monitoring; each thread must get the serial answer and the object must stay correct. E3c: the prange kernels' "
+         "own source, rewritten at check time so that iterations run as threads, all interleavings within 2 pre-emptions, "
+         "result compared with the compiled kernel. The default schedule is replayed twice (determinism). A free-running "
+         "grid (scheduler x workers x numba threads x N client threads, omp layer, separate process) complements it.",
+         "numba kernels and third-party C code are atomic steps between yield points; the compiled parallel execution of "
+         "prange kernels is only covered by the free-running grid, which is reported as uncontrolled runs, never as exhaustive.",
+         "DESIGN.md section 3/C18"),
 }
 
 NOT_YET = {}
